@@ -645,7 +645,16 @@ func register(sc *scenario) {
 	ekit.Register("C16", ekit.Scenario{Name: sc.name, Run: func(st *ekit.Stats, tier string) { runScenario(sc, st, tier) }})
 }
 
+// alsoUnder runs a scenario under another property as well (C12: rejecting or losing a connection
+// at any stage of the handshake never stops a listener from accepting or a dialer from redialling;
+// C15: a conformant peer is served beside non-conformant ones).
+func alsoUnder(prop string, sc *scenario) {
+	ekit.Register(prop, ekit.Scenario{Name: sc.name, Run: func(st *ekit.Stats, tier string) { runScenario(sc, st, tier) }})
+}
+
 func registerAll() {
+	alsoUnder("C12", scHandshake)
+	alsoUnder("C12", scWS)
 	register(scHandshake)
 	register(scMessage)
 	register(scWS)
